@@ -101,6 +101,7 @@ func RunC03(tier string) int {
 		universe int
 		cons     c03Consumer
 		noNL     bool
+		special  string // the rule file is not a regular file: "dir", "fifo", "link-to-fifo" (then only the built-in rules apply)
 	}
 	var setStats []map[string]any
 	runJobs := func(name string, jobs []job) {
@@ -122,13 +123,25 @@ func RunC03(tier string) int {
 			if j.noNL {
 				text = strings.Join(j.rules, "\n") // the last line is not newline-terminated
 			}
-			nodes = append(nodes, TNode{Path: "src/.terraformignore", Kind: "file", Body: text})
+			switch j.special {
+			case "":
+				nodes = append(nodes, TNode{Path: "src/.terraformignore", Kind: "file", Body: text})
+			case "dir":
+				nodes = append(nodes, TNode{Path: "src/.terraformignore", Kind: "dir"})
+			case "fifo":
+				nodes = append(nodes, TNode{Path: "src/.terraformignore", Kind: "fifo"})
+			case "link-to-fifo":
+				nodes = append(nodes, TNode{Path: "out/ff", Kind: "fifo"}, TNode{Path: "src/.terraformignore", Kind: "link", Target: "../out/ff"})
+			}
 			args[i] = PackArg{Nodes: nodes, Ignore: j.cons.Ignore, Deref: j.cons.Deref, Legacy: j.cons.Legacy, NoTrees: true}
 			return args[i]
 		}, func(i int, r core.Result) {
 			j := jobs[i]
 			rep.Evaluations++
 			desc := fmt.Sprintf("consumer=%s universe=%d rules=%q final-newline=%v", j.cons.Name, j.universe, j.rules, !j.noNL)
+			if j.special != "" {
+				desc = fmt.Sprintf("consumer=%s universe=%d rule file is a %s (only the built-in rules can apply)", j.cons.Name, j.universe, j.special)
+			}
 			if r.Hung || r.Crashed {
 				rep.Violation("slug.Pack/hang-or-crash", desc+" "+firstLines(r.Stderr, 3), "pack", args[i])
 				return
@@ -155,7 +168,9 @@ func RunC03(tier string) int {
 				}
 			}
 			rules := ref.Builtin()
-			rules = append(rules, ref.ParseRules(strings.Join(j.rules, "\n"))...)
+			if j.special == "" {
+				rules = append(rules, ref.ParseRules(strings.Join(j.rules, "\n"))...)
+			}
 			applies := j.cons.Ignore || j.cons.Legacy
 			var wrongOut, wrongIn []string
 			changed := false
@@ -225,7 +240,7 @@ func RunC03(tier string) int {
 					us = []int{1}
 				}
 				for _, u := range us {
-					js = append(js, job{rf, u, c, false})
+					js = append(js, job{rules: rf, universe: u, cons: c})
 				}
 			}
 		}
@@ -241,6 +256,21 @@ func RunC03(tier string) int {
 		one = append(one, []string{r})
 	}
 	runJobs("1-rule files (full alphabet)", mk(one, []int{1, 2}, consumers))
+	{
+		// the rule file is there but is not a regular file; and lines far longer than any buffer
+		var js []job
+		for _, sp := range []string{"dir", "fifo", "link-to-fifo"} {
+			for _, j := range mk([][]string{{}}, []int{1, 2}, consumers) {
+				j.special = sp
+				js = append(js, j)
+			}
+		}
+		long := func(n int, tail string) string { return "#" + strings.Repeat("x", n-1-len(tail)) + tail }
+		longFiles := [][]string{{long(4097, "b")}, {long(4100, "*a*")}, {long(5000, ""), "a/"}, {"a/", long(8193, "!a/b")}, {long(70000, "b"), "a/"}, {"b", long(70000, "")},
+			{strings.Repeat("x", 4096) + "b"}, {"a/", strings.Repeat("y", 70000)}}
+		js = append(js, mk(longFiles, []int{1}, consumers[:2])...)
+		runJobs("rule file that is not a regular file; very long lines", js)
+	}
 	{
 		var js []job
 		for _, j := range mk(append(append([][]string{}, misc...), one...), []int{3}, consumers) {
